@@ -342,6 +342,20 @@ static void x_dest(void * e, void * priv)
     }
 }
 
+/* ONE function registered as both constructor and destructor (flag 4 of `init`): which of the
+ * two roles a call plays is decided by the operation in progress (`both_role`, set by the harness
+ * before it calls the library: 'C' for a growing resize, 'D' for a shrinking one and for clear) */
+static char both_role = 'C';
+
+static void x_both(void * e, void * priv)
+{
+    if (both_role == 'C') {
+        x_cons(e, priv);
+    } else {
+        x_dest(e, priv);
+    }
+}
+
 /* ------------------------------------------------------------------ */
 /* dump */
 
@@ -540,8 +554,12 @@ static void op(int argc, char ** argv)
     /* ---------------------------------------------------- vector */
     } else if (!strcmp(o, "init") && argc == 4 && a >= 0 && a < 2) {
         int x = atoi(argv[3]);
-        cstl_vector_init_complex(&vec[a], h_size(argv[2]),
-                                 (x & 1) ? x_cons : NULL, (x & 2) ? x_dest : NULL, H_PRIV(1));
+        if (x & 4) {
+            cstl_vector_init_complex(&vec[a], h_size(argv[2]), x_both, x_both, H_PRIV(1));
+        } else {
+            cstl_vector_init_complex(&vec[a], h_size(argv[2]),
+                                     (x & 1) ? x_cons : NULL, (x & 2) ? x_dest : NULL, H_PRIV(1));
+        }
         outf("ok");
     } else if (!strcmp(o, "reserve") && argc == 3 && a >= 0 && a < 2) {
         cstl_vector_reserve(&vec[a], h_size(argv[2]));
@@ -552,6 +570,7 @@ static void op(int argc, char ** argv)
     } else if (!strcmp(o, "resize") && argc == 3 && a >= 0 && a < 2) {
         struct cstl_vector * v = &vec[a];
         size_t old = cstl_vector_size(v), i, inb;
+        both_role = h_size(argv[2]) > old ? 'C' : 'D';
         cstl_vector_resize(v, h_size(argv[2]));
         if (v->elem.xtor.cons == NULL) {
             /* the client initialises the slots it was given (inside the block only) */
@@ -562,6 +581,7 @@ static void op(int argc, char ** argv)
         }
         ok_events();
     } else if (!strcmp(o, "clear") && argc == 2 && a >= 0) {
+        both_role = 'D';
         if (a < 2) {
             cstl_vector_clear(&vec[a]);
         } else if (a < 4) {
